@@ -23,6 +23,9 @@ THEOREMS = [
     "C16.debounce_sim_bridge",
     "C16.throttle_first_sim_bridge",
     "C16.sample_tie_rule_derived",
+    "C16.throttle_first_feedback_rule",
+    "C16.throttle_first_feedback_inert",
+    "C16.sample_feedback_combined_partial",
 ]
 RULE = ("throttle_with_mapper durations include reactivex.timer(d) WITHOUT a scheduler (must run on the subscribe-time scheduler; real-time leaks are counted); 30% of the hot throttle_first / sample cases have a consumer that pushes an echo element into the source from inside on_next (re-entrant feedback); 20% of the non-mapper cases subscribe the SAME observable instance a second time (overlapping or later) and compare with a fresh single subscription; timelines of 0..7 elements + terminal (completed/error/none; 12% non-conforming or with pre-subscription messages): bursts, gaps of exactly "
         "d-1/d/d+1 ticks, elements at / around sampler ticks, terminal with a pending element, simultaneous arrivals; hot and cold sources; "
@@ -30,6 +33,12 @@ RULE = ("throttle_with_mapper durations include reactivex.timer(d) WITHOUT a sch
 ASSUMPTIONS = ["virtual time in integer ticks on TestScheduler; the operator's timers are armed inside on_next / after the source subscription, so a "
                "source message wins a tie against them (inlined (due, seq) rule of VirtualTimeScheduler)",
                "subscription at 200, disposal at 1000; sample(period) is cut by the disposal (ticks < 1000), everything else ends before"]
+
+# Operators whose re-entrant feedback cases have to wait for a fix in /repo (fixes/C16_reentrant_debounce.patch,
+# fixes/C16_reentrant_throttle_with_mapper.patch: the pending flag is cleared AFTER the downstream on_next, so an element the
+# consumer pushes from inside that call is dropped).  The models (simRunFb / twmSimFb) are of the FIXED code.  Remove an
+# operator from this set once its patch is in /repo.
+REENTRANT_PENDING_FIX = set()
 
 OPS = ["throttle_first", "debounce", "debounce_alias", "sample", "sample_obs", "throttle_with_mapper"]
 
@@ -75,7 +84,8 @@ def cases(rng, tier):
                 t2 = T.gen_sub2(rng, msgs, p=0.2)
                 if t2 is not None:
                     c["sub2"] = t2          # the same observable instance subscribed again: state must be per subscription
-            if op in ("throttle_first", "sample") and src == "hot" and "sub2" not in c and c.get("d", 1) > 0 and rng.random() < 0.3:
+            if (op in ("throttle_first", "sample", "debounce", "debounce_alias", "throttle_with_mapper") and op not in REENTRANT_PENDING_FIX
+                    and src == "hot" and "sub2" not in c and c.get("d", 1) > 0 and rng.random() < 0.3):
                 # re-entrant feedback: the consumer pushes ("echo", k) into the hot source from inside on_next for its k-th element
                 c["echo"] = sorted({rng.randrange(0, 4) for _ in range(rng.choice([1, 1, 2, 3]))})
             c["msgs"] = T.to_cold(msgs) if src == "cold" else msgs
@@ -143,6 +153,32 @@ def expected(case):
                         arrivals.append(["N", {"t": ["echo", k]}])      # pushed by the consumer while it handles m
                     k += 1
         return out
+    if op in ("debounce", "debounce_alias") and case.get("echo"):
+        # the rule over the COMBINED arrival sequence: an element the consumer pushes while it receives the k-th delivery
+        # arrives at that instant, right after the delivery, and is itself emitted after its own quiet period
+        d = case["d"]
+        echo = set(case["echo"])
+        out, pending, k, i = [], None, 0, 0
+        while True:
+            nxt = src[i][0] if i < len(src) else None
+            if pending is not None and (nxt is None or pending[0] < nxt):
+                due, n = pending
+                out.append([due, n])
+                pending = None
+                if k in echo and not is_echo(n):
+                    pending = (due + d, ["N", {"t": ["echo", k]}])
+                k += 1
+                continue
+            if nxt is None:
+                return out
+            t, n = src[i]
+            i += 1
+            if n[0] == "N":
+                pending = (t + d, n)
+            elif n[0] == "C":
+                return out + ([[t, pending[1]]] if pending else []) + [[t, n]]
+            else:
+                return out + [[t, n]]
     if op in ("debounce", "debounce_alias"):
         d = case["d"]
         out = []
@@ -194,6 +230,44 @@ def expected(case):
             if n[0] == "E":
                 return out + [[t, n]]
         return out
+    if op == "throttle_with_mapper" and case.get("echo"):
+        # the same rule over the combined arrival sequence; the throttle observable of an element is subscribed when the element
+        # arrives (mapper calls are counted over originals and echoes alike)
+        echo = set(case["echo"])
+        q = [[t, ("src", n)] for t, n in src]
+        out, pending, c, k = [], None, 0, 0
+        while q:
+            t, e = q.pop(0)
+            if e[0] == "src":
+                n = e[1]
+                if n[0] == "N":
+                    if case.get("raise_at") == c:
+                        return out + [[t, ["E", "mapErr"]]]
+                    pending = (c, n)
+                    tl = T.inner_of(case["inners"], c)
+                    if T.is_inline(tl):
+                        q[0:0] = [[t, ("inner", c, m)] for m in T.INLINE[tl["inline"]]]
+                    else:
+                        for r, m in T.inner_timeline(tl):
+                            j = 0
+                            while j < len(q) and q[j][0] <= t + r:
+                                j += 1
+                            q.insert(j, [t + r, ("inner", c, m)])
+                    c += 1
+                elif n[0] == "C":
+                    return out + ([[t, pending[1]]] if pending else []) + [[t, n]]
+                else:
+                    return out + [[t, n]]
+            elif pending is not None and e[1] == pending[0]:
+                if e[2][0] == "E":
+                    return out + [[t, e[2]]]
+                n = pending[1]
+                out.append([t, n])
+                pending = None
+                if k in echo and not is_echo(n):
+                    q.insert(0, [t, ("src", ["N", {"t": ["echo", k]}])])
+                k += 1
+        return out
     if op == "throttle_with_mapper":
         # the pending element is emitted when ITS throttle observable first signals (emits or completes)
         ev = T.merged_events([T.src_stream(src, case["inners"])] + T.elem_streams(src, case["inners"]))
@@ -217,6 +291,10 @@ def expected(case):
                 pending = None
         return out
     raise ValueError(op)
+
+
+def is_echo(n):
+    return isinstance(n[1], dict) and (n[1].get("t") or [None])[0] == "echo"
 
 
 def oracle(case, io):
@@ -267,4 +345,4 @@ def shrink(case):
 
 
 LEVEL_TEXT = ('Lean theorems, for all timelines (no bound, no sortedness needed), due times and element types: the handler-level models of throttle_first (last_on_next fold), debounce (id / has_value / value + Serial timer with the (due,seq) tie rule inlined) and sample (latest / has_value / at_end against an arbitrary list of sampler events) equal the declarative rules of the property text (window rule; emit iff the next source notification is later than t+d, flush at completion, drop at error; latest not-yet-sampled element at each tick); throttle_with_mapper as a trace machine equals the pending-element rule on every event interleaving. Tied to the code by differential runs on TestScheduler (hot/cold sources, gaps exactly d, bursts, terminal with a pending element, sampler as interval or observable) and by oracles written from the property text.')
-LEVEL_NOTE = ('sample(period): the tick list of interval(period) (sub+k*period below the disposal time) is driver glue; the theorem is for any tick list. throttle_with_mapper / sample(observable): the global event order is built by a stable merge in the driver (validated by the correspondence only). The (due, seq) tie rule is no longer assumed for debounce, throttle_first and sample(observable): *_sim_bridge / sample_tie_rule_derived prove that a scheduler simulation (queue ordered by due time then insertion, hot messages scheduled first, same handler functions) equals the two-stream runs; the driver also runs it on every case. Trusted: correspondence harness, generators, that the messages of a hot source are scheduled before the timers of the operator.')
+LEVEL_NOTE = ('Re-entrant feedback: throttle_first proved over the combined arrival sequence; sample only as scheduler run over the combined queue (sample_feedback_combined_partial: the window form is missing); debounce / throttle_with_mapper feedback cases wait for fixes/C16_reentrant_*.patch (REENTRANT_PENDING_FIX), their feedback models have correspondence + oracle only. sample(period): the tick list of interval(period) (sub+k*period below the disposal time) is driver glue; the theorem is for any tick list. throttle_with_mapper / sample(observable): the global event order is built by a stable merge in the driver (validated by the correspondence only). The (due, seq) tie rule is no longer assumed for debounce, throttle_first and sample(observable): *_sim_bridge / sample_tie_rule_derived prove that a scheduler simulation (queue ordered by due time then insertion, hot messages scheduled first, same handler functions) equals the two-stream runs; the driver also runs it on every case. Trusted: correspondence harness, generators, that the messages of a hot source are scheduled before the timers of the operator.')
